@@ -397,6 +397,24 @@ def cases(rng, tier):
                 n = rng.choice([0, 1, 3, 9, 30])
                 consts.append(("s", bytes(rng.choice(b"abc XYZ&\"" + bytes(NAMED)) for _ in range(n))))
         out.append(consts_case("pool", consts, wide=rng.random() < 0.3, whole=(i % 4 == 0)))
+    # 4a. beyond the small bounds: a pool of 4 200 / 5 500 constants (record offsets of the 2-byte literal opcode 0x84 reach 0x8000:
+    #     top bit of its 16-bit operand) with `put` of the constants around the boundary, and constant data of more than 65 535 bytes
+    #     (two strings of 40 000 and 30 000 bytes: every 16-bit size / offset of the constant area overflows)
+    for npool, wide in ((4200, True), (5500, False)):
+        consts = [("i", 100000 + i) for i in range(npool)]
+        bpc = 8 if wide else 6
+        code = b""
+        idxs = (0, 1, 41, 42, 43, 4095, 4096, 4097, npool - 1) + tuple(range(0x8000 // bpc - 2, 0x8000 // bpc + 3))
+        for i in idxs:
+            k = i * bpc
+            code += (bytes([0x44, k]) if k < 256 else bytes([0x84, k >> 8, k & 0xFF])) + bytes([0x42, 0x01, 0x57, 0x01])
+        lscr = L.build_lscr([dict(name=0, args=[], locals=[], code=code + b"\x01")], consts, wide_consts=wide)
+        lnam = L.build_lnam([b"h", b"put"])
+        out.append(Case(kind="scale-pool-int", spec=dict(npool=npool, wide=wide, values=[100000 + i for i in idxs]),
+                        lines=[f"lscr lingo {hx(lscr)} {hx(lnam)}", f"lscr js {hx(lscr)} {hx(lnam)}"], expect=[None, None]))
+    big = [("s", bytes(97 + i % 26 for i in range(40000))), ("s", bytes(65 + i % 26 for i in range(30000))), ("s", b"tail"), ("i", 7)]
+    out.append(consts_case("pool-scale", big, wide=False, whole=True, spec=dict(sizes=[40000, 30000, 4])))
+    out.append(consts_case("pool-scale", big, wide=True, whole=True, spec=dict(sizes=[40000, 30000, 4])))
     # 4b. an inline integer under a unary minus: the literal must still be read as a number (`--5` would be a Lingo comment)
     vals = [0, 1, 5, 127, 128, 255, 200, 129] + [rng.randrange(256) for _ in range(6)]
     lines, spec_vals = [], []
@@ -586,6 +604,14 @@ def oracle(case, io):
                 lits = _put_literals(json.loads(o), lang)
                 if len(lits) != 1 or _eval_negated(lits[0]) != -v:
                     return f"{lang}: `put -({v})` is printed {lits!r}, which does not read as {-v}"
+        return None
+    if k == "scale-pool-int":
+        for lang, o in (("lingo", io[0]), ("js", io[1])):
+            if o == '"error"':
+                return f"{lang}: a pool of {case['spec']['npool']} integer constants makes the decompiler raise"
+            lits = _put_literals(json.loads(o), lang)
+            if lits != [str(v) for v in case["spec"]["values"]]:
+                return f"{lang}: constants of a {case['spec']['npool']}-entry pool are printed {lits[:16]!r}, expected {case['spec']['values'][:16]!r}"
         return None
     if k == "readers":
         for li in range(len(case["lines"]) - 1):
